@@ -2,7 +2,8 @@
 (* Trace validation for ETHClient.tla: index / rootMain / cons / head are bound to the RAW client store of the    *)
 (* real application after every submitted header.                                                                 *)
 EXTENDS Integers, Sequences, FiniteSets, TLC, Json, IOUtils
-CONSTANTS FixRestrict
+CONSTANTS FixRestrict,
+          Expiry    \* TRUE: the expiry leg (short trusting period, moving clock): pruning is judged, conformance with the clock-less model is not
 Trace == ndJsonDeserialize(IOEnv.TRACE_FILE)
 VARIABLES l, index, cons, rootMain, head, last
 Universe == {"a1", "a2", "a3", "a4", "b1", "b2", "b3", "c2", "c3", "d3", "m1", "n2", "p2", "k1", "l1"}
@@ -18,7 +19,22 @@ TInit == l = 0 /\ index = {} /\ cons = <<>> /\ rootMain = <<>> /\ head = "none" 
 Report(k, name, holds) == holds \/ PrintT(<<"VIOL", k, name>>)
 IsStep(k) == ln(k).ev # "Reset"
 X(k) == ln(k).args.x
-Judge(k) ==
+(* --- the expiry leg: with every accepted header the EARLIEST consensus state is removed if its date plus the trusting  *)
+(* period lies before the block time - nothing else is (light-clients/eth/types/update.go)                              *)
+Min(S) == CHOOSE x \in S : \A y \in S : x <= y
+MainAt0(h) == IF h \in DOMAIN cons /\ <<cons[h], h>> \in DOMAIN rootMain THEN rootMain[<<cons[h], h>>] ELSE "?"
+Expired(k, id) == id \in DOMAIN ln(k).dates /\ ln(k).dates[id] + ln(k).clock.tp < ln(k).clock.now
+JudgeExpiry(k) == (IsStep(k) /\ DOMAIN cons # {}) =>
+  LET removed == (DOMAIN cons) \ (DOMAIN cons')  e == Min(DOMAIN cons) IN
+  /\ Report(k, "C10.PrunesOnlyEarliestExpired", removed \subseteq {e} /\ (removed # {} => (ln(k).res = "ok" /\ Expired(k, MainAt0(e)))))
+  /\ Report(k, "C10.ExpiredEarliestIsPruned", (ln(k).res = "ok" /\ Expired(k, MainAt0(e))) => e \in removed)
+  /\ Report(k, "C10.RejectChangesNothing", ln(k).res # "ok" => ln(k).dg.pre = ln(k).dg.post)
+  (* stored headers leave the index only together with the pruned earliest consensus state (the header that state belongs to) *)
+  /\ Report(k, "C10.HeadersLeaveOnlyWithPrunedState", (index \ index') \subseteq (IF e \in removed THEN {MainAt0(e)} ELSE {}))
+  (* forks still do not wedge the client: while the head is fresh and no pruning is due, a rule-abiding header whose way back *)
+  (* to the head's chain is stored (the walk of RestrictChain on the stored headers) is accepted                              *)
+  /\ Report(k, "C10.NeverWedgedWhileFresh", (~Expired(k, MainAt0(e)) /\ ~Expired(k, head) /\ SubmitOK(X(k))) => ln(k).res = "ok")
+JudgeTree(k) ==
   /\ Report(k, "C10.AcceptedHasStoredParent", AcceptedHasStoredParent')
   /\ Report(k, "C10.AncestryRoots", AncestryRoots')
   /\ Report(k, "C10.KnownHeadersOnly", index' \subseteq All)
@@ -28,8 +44,9 @@ Judge(k) ==
      /\ Report(k, "C10.OnlyRuleAbiding", ln(k).res = "ok" => (Valid[X(k)] /\ P(X(k)) \in index))
      /\ Report(k, "C10.HeadIsLast", ln(k).res = "ok" => head' = X(k))
      /\ Report(k, "C10.RejectChangesNothing", ln(k).res # "ok" => (ln(k).dg.pre = ln(k).dg.post /\ UNCHANGED stateVars))
+Judge(k) == IF Expiry THEN JudgeExpiry(k) ELSE JudgeTree(k)
 C_Step(k) == SubmitEff(X(k)) /\ (ln(k).res = "ok") = SubmitOK(X(k))
-Conform(k) == IsStep(k) => (C_Step(k) \/ PrintT(<<"DRIFT", k, ln(k).ev>>))
+Conform(k) == (IsStep(k) /\ ~Expiry) => (C_Step(k) \/ PrintT(<<"DRIFT", k, ln(k).ev>>))
 TNext == LET k == l + 1 IN
   /\ l < Len(Trace) /\ l' = k
   /\ index' = SetOf(ln(k).st.index) /\ cons' = FnOf(ln(k).st.cons) /\ head' = ln(k).st.head
